@@ -380,9 +380,9 @@ func c18ArgRun(src string) (string, error, interface{}) {
 
 func c18ArgCases() []c18ArgCase {
 	var out []c18ArgCase
-	strs := []c14Arg{{`"s"`, "s"}, {"sv", "var"}}
-	ints := []c14Arg{{"i3", 3}, {"4", 4.0}}
-	flts := []c14Arg{{"2.5", 2.5}, {"i3", 3}}
+	strs := []c14Arg{{`"s"`, "s", ""}, {"sv", "var", ""}, {`up("n")`, "up<n>", ""}}
+	ints := []c14Arg{{"i3", 3, ""}, {"4", 4.0, ""}, {"inc(2)", 3, ""}}
+	flts := []c14Arg{{"2.5", 2.5, ""}, {"i3", 3, ""}}
 	for _, s := range strs {
 		for _, i := range ints {
 			for _, f := range flts {
